@@ -135,7 +135,8 @@ func runC13(c *Ctx) {
 		n := 0
 		for _, e := range successAlts(rp) {
 			n++
-			c.requireGuard("C13.recover-guard", "RecoverPublicKey succeeds", e.pos(), e.Guards, wTrue("signature has a recovery id", `^\$r\.HasV\(\)$`))
+			withV, _ := c.constVal("common/crypto", "SignatureLenRawWithV")
+			c.requireAny("C13.recover-guard", "RecoverPublicKey succeeds", e.pos(), e.Guards, "signature has a recovery id", wTrue("HasV()", `^\$r\.HasV\(\)$`), wEQ("len(bytes) == 65", -withV, t(1, `^len\(\$r\.bytes\)$`)))
 			c.requireGuard("C13.recover-guard", "RecoverPublicKey succeeds", e.pos(), e.Guards, wGE("hash not empty", -1, t(1, `^len\(\$0\)$`)))
 			c.requireGuard("C13.recover-guard", "RecoverPublicKey succeeds", e.pos(), e.Guards, wGE("hash ≤ 32 bytes", 32, t(-1, `^len\(\$0\)$`)))
 			c.requireGuard("C13.recover-guard", "RecoverPublicKey succeeds", e.pos(), e.Guards, wSame("curve recovery succeeded", `RecoverCompact\(\$r\.bytes,\$0\)#2$`, `^nil$`))
